@@ -383,10 +383,16 @@ pub fn kmers_mix<A: Cx>(s: &SeqSlice<A>, k: usize, adv: usize, consumer: &str, c
         let mut it = s.kmers::<K>();
         for _ in 0..adv {
             if it.next().is_none() {
-                break;
+                return match consumer {
+                    "count" | "overshoot_count" => json!({"count": 0}),
+                    "last" => json!({"some": false}),
+                    _ => json!({"items": []}),
+                };
             }
         }
         let rest: Vec<Value> = match consumer {
+            "overshoot_count" => { let jumped = it.nth(cap + 64).is_some(); return json!({"count": it.count() + usize::from(jumped)}); }
+            "overshoot_next" => { let mut v = Vec::new(); if let Some(x) = it.nth(cap + 7) { v.push(kview(&x)); } for _ in 0..4 { if let Some(x) = it.next() { v.push(kview(&x)); } } v }
             "next" => { let mut v = Vec::new(); for _ in 0..cap { match it.next() { Some(x) => v.push(kview(&x)), None => break } } v }
             "fold" => it.fold(Vec::new(), |mut v, x| { v.push(kview(&x)); v }),
             "for_each" => { let mut v = Vec::new(); it.for_each(|x| v.push(kview(&x))); v }
